@@ -25,7 +25,7 @@ func init() {
 		Explanation: `R12.1 end of series on every path: writeMessages and the empty-new-file shortcut of Do end with a Control whose Eof is true; R07.1 (shared) partition arithmetic cannot divide by zero; ` +
 			`R12.2 old-offset accounting in IndividualPatchContext.Apply: the cache is positioned at OldOffset before the add phase and every success path advances OldOffset by len(Add) (when non-empty) and by Seek; ` +
 			`R12.3 the read cache's slot bookkeeping: a chunk is stored in a slot whose allocation is free, the slot is marked, eviction (registered with the LRU) frees exactly the evicted chunk's slot, Reset frees all slots and purges; ` +
-			`R15.3 (shared) matches reach the writer through a single sender in block order; R12.4 suffix sorting and searching only on non-empty input; R12.5 the scan-block count and scan-block size (found by role in the worker literal) are each computed from the other whenever they are set, or the other is recomputed before the workers start; R16.8 (shared) helper goroutines are waited for only after they were released; R10.swallow (shared) a failed chunk/storage call never ends in success. R12.7 a success return of getChunk that does not pass lru.Get depends only on fields that Reset assigns on every path. R12.8 a failure return of the read cache's Seek lies behind a comparison of the resulting position (not the bare offset argument, except under whence == SeekStart) or behind 'no known whence'. R04.7 (shared) rediff's path-to-index map is keyed by the path itself. NOT decided: that add+copy tile the new file, the suffix-array search, index arithmetic of the cache's Read.`,
+			`R15.3 (shared) matches reach the writer through a single sender in block order; R12.4 suffix sorting and searching only on non-empty input; R12.5 the scan-block count and scan-block size (found by role in the worker literal) are each computed from the other whenever they are set, or the other is recomputed before the workers start; R16.8 (shared) helper goroutines are waited for only after they were released; R10.swallow (shared) a failed chunk/storage call never ends in success. R12.7 a success return of getChunk that does not pass lru.Get depends only on fields that Reset assigns on every path. R12.8 a failure return of the read cache's Seek lies behind a comparison of the resulting position (not the bare offset argument, except under whence == SeekStart) or behind 'no known whence'. R04.7 (shared) rediff's path-to-index map is keyed by the path itself. R12.9 in bsdiff's whole-series Patch the loop comes round from reading a control to the next read only through Apply. NOT decided: that add+copy tile the new file, the suffix-array search, index arithmetic of the cache's Read.`,
 		Run: runC12,
 	})
 }
@@ -417,7 +417,17 @@ func ruleRewindBeforeLinearRead(c *core.Ctx, rule string) {
 		}
 		core.Instrs(fn, func(in ssa.Instruction) {
 			cl, ok := in.(*ssa.Call)
-			if !ok || !cl.Call.IsInvoke() || cl.Call.Method.Name() != "GetReadSeeker" {
+			if !ok {
+				return
+			}
+			if cl.Call.IsInvoke() {
+				if cl.Call.Method.Name() != "GetReadSeeker" {
+					return
+				}
+			} else if f := cl.Call.StaticCallee(); f == nil || f.Name() != "GetReadSeeker" || f.Signature.Recv() == nil || !strings.HasSuffix(core.TypeName(f.Signature.Recv().Type()), "safeKeeper") {
+				// the safekeeper's own GetReadSeeker called on the concrete type counts too (its GetReader is what a
+				// whole-file copy reads through). Not ValidatingPool's pass-through reader side: nothing in the tree
+				// reads through it and no property speaks of it (it has the same latent flaw, noted in DESIGN 10.15)
 				return
 			}
 			// the reader: result #0
@@ -574,6 +584,7 @@ func runC12(c *core.Ctx) {
 	ruleBlockLayoutCoupled(c, "R12.5")
 	ruleCacheBypassIsForgotten(c, "R12.7")
 	ruleCacheSeekRefusesOnlyTheImpossible(c, "R12.8")
+	ruleEveryControlIsApplied(c, "R12.9")
 	rulePathKeysAreOneToOne(c, "R04.7", 2, func(fn *ssa.Function) bool { return strings.HasSuffix(core.PkgPathOf(fn), "/pwr/rediff") })
 	c.Rule("R12.1", "end-of-series on every path")
 	c.Rule("R07.1", "no division by a possibly-zero quotient (shared)")
